@@ -219,8 +219,12 @@ def run(ctx):
     if th:
         specs.append(dict(D=3, depth=1, cls="ResNet", input=S1[0], output=S1[1], use_group_norm=True, activation="relu", use_bias="auto", num_conv=1))
         specs.append(dict(D=3, depth=1, cls="ConvBlock", input=S2[0], output=S2[1], use_group_norm=True, activation="relu", use_bias="auto"))
+        specs.append(dict(D=3, depth=1, cls="UNet", input=S2[0], output=S2[1], use_group_norm=True, activation="gelu", use_bias="auto", num_downsamples=1, num_conv=1, square=False))
+        specs.append(dict(D=3, depth=1, cls="DilResNet", input=S1[0], output=S1[1], use_group_norm=False, activation="relu", use_bias="auto"))
     else:
         specs.append(dict(D=3, depth=1, cls="ConvBlock", input=S1[0], output=S1[1], use_group_norm=True, activation="relu", use_bias="auto"))
+    # the 3-D U-Net exercises the up-sampling bank with tensor order >= 1 under rotations mixing all three axes
+    specs.append(dict(D=3, depth=1, cls="UNet", input=S1[0], output=S1[1], use_group_norm=False, activation="relu", use_bias="auto", num_downsamples=1, num_conv=1, square=False))
     jobs = [(ctx.repo, s) for s in specs]
     by = {}
     for job, r in ctx.pairs(worker, jobs, chunk=1):
